@@ -71,7 +71,7 @@ pub fn run(args: &Args) -> Report {
         texts.push(String::from_utf8_lossy(&unhex(input.split_whitespace().next().unwrap_or("-"))).into_owned());
     } else {
         for i in 0..n {
-            let mut toks = gen_document_canonical(&g, &mut rng, GenOpts { opt_prob: [15, 35, 60][i % 3], ..GenOpts::default() });
+            let mut toks = gen_document_canonical(&g, &mut rng, GenOpts { opt_prob: [15, 35, 60][i % 3], specials: i % 4 == 1, ..GenOpts::default() });
             // multi-line block comments between block-level elements
             for t in toks.iter_mut() {
                 if t.role == Role::Comment && t.text.starts_with("/*") && rng.chance(1, 3) {
